@@ -45,10 +45,11 @@ func pfExtractOf(call *ssa.Call, idx int) ssa.Value {
 	return nil
 }
 
-// c04BoolResult: is result idx of call known true/false under the facts?
-func (p *Program) c04BoolResult(fs []Fact, call *ssa.Call, idx int) tri {
+// c04BoolResult: is result idx of call known true/false under the facts? The tested value is the
+// result itself or a variable that carries it after the call (c04Carries).
+func (p *Program) c04BoolResult(fs []Fact, call *ssa.Call, idx int, region map[*ssa.BasicBlock]bool) tri {
 	for _, f := range fs {
-		if p.pfIsResultOf(f.Cond, call, idx) {
+		if p.pfIsResultOf(f.Cond, call, idx) || p.c04Carries(f.Cond, call, idx, region, 0) {
 			if f.Pol {
 				return yesTri
 			}
@@ -56,6 +57,133 @@ func (p *Program) c04BoolResult(fs []Fact, call *ssa.Call, idx int) tri {
 		}
 	}
 	return unknownTri
+}
+
+// c04ErrOfCall: is the error result of call known nil (yes) / non-nil (no) under the facts? Like
+// errOfCall, and additionally through a variable that carries the error after the call.
+func (p *Program) c04ErrOfCall(fs []Fact, call *ssa.Call, region map[*ssa.BasicBlock]bool) tri {
+	if t := p.errOfCall(fs, call); t != unknownTri {
+		return t
+	}
+	errIdx := pfResultIndex(call.Common().Signature(), "error")
+	if errIdx < 0 {
+		return unknownTri
+	}
+	for _, f := range fs {
+		x, trueMeansNonNil, ok := errNilTest(f.Cond)
+		if !ok || !p.c04Carries(x, call, errIdx, region, 0) {
+			continue
+		}
+		if f.Pol == trueMeansNonNil {
+			return noTri
+		}
+		return yesTri
+	}
+	return unknownTri
+}
+
+// c04Carries: whenever `call` has executed and control has not yet left `region` (the blocks that
+// can run after the call in the same loop iteration, pfIterRegion), v holds result idx of that
+// execution of the call. True for the result itself and for a variable into which the result is
+// merged with the results of alternative branches that do NOT run the call:
+//
+//	var done bool; var err error
+//	if remote { done, err = a.Teardown(x) } else { done, err = b.TeardownPhase(x) }
+//	if err != nil {…}          // a test of err is a test of b's error wherever b was called
+//
+// SSA: a Phi that is evaluated after the call (its block lies in the region and is not the call's own
+// block) carries the result when every incoming edge that can be taken after the call (predecessor
+// in the region) carries it; the other edges belong to paths on which the call did not run in this
+// iteration. A spilled local carries it when every path from the call to the load stores to it and
+// every store that can run after the call and reaches the load stores a carrying value.
+func (p *Program) c04Carries(v ssa.Value, call *ssa.Call, idx int, region map[*ssa.BasicBlock]bool, depth int) bool {
+	if v == nil || depth > 6 {
+		return false
+	}
+	v = stripConv(v)
+	if c, i := asCall(v); c != nil {
+		n := call.Common().Signature().Results().Len()
+		return c == call && (i == idx || (i == -1 && n == 1 && idx == 0))
+	}
+	after := func(in ssa.Instruction) bool {
+		b := in.Block()
+		if !region[b] {
+			return false
+		}
+		return b != call.Block() || instrIndex(in) > instrIndex(call)
+	}
+	switch x := v.(type) {
+	case *ssa.Phi:
+		b := x.Block()
+		if !region[b] || b == call.Block() {
+			return false
+		}
+		any := false
+		for i, e := range x.Edges {
+			if i >= len(b.Preds) {
+				return false
+			}
+			if !region[b.Preds[i]] {
+				continue
+			}
+			if !p.c04Carries(e, call, idx, region, depth+1) {
+				return false
+			}
+			any = true
+		}
+		return any
+	case *ssa.UnOp:
+		if x.Op != token.MUL || !after(x) {
+			return false
+		}
+		a, ok := x.X.(*ssa.Alloc)
+		if !ok || p.allocInfo(a).unknown {
+			return false
+		}
+		sts, _ := p.storesReaching(a, x)
+		any := false
+		for _, st := range sts {
+			if !after(st) {
+				continue
+			}
+			if !p.c04Carries(st.Val, call, idx, region, depth+1) {
+				return false
+			}
+			any = true
+		}
+		if !any {
+			return false
+		}
+		// every path from the call to the load overwrites the variable
+		seen := map[*ssa.BasicBlock]bool{}
+		var walk func(b *ssa.BasicBlock, start int) bool
+		walk = func(b *ssa.BasicBlock, start int) bool {
+			for i := start; i < len(b.Instrs); i++ {
+				in := b.Instrs[i]
+				if st, isSt := in.(*ssa.Store); isSt && st.Addr == ssa.Value(a) {
+					return true
+				}
+				if in == ssa.Instruction(call) {
+					return true // a new execution of the call
+				}
+				if in == ssa.Instruction(x) {
+					return false
+				}
+			}
+			for _, sc := range b.Succs {
+				if seen[sc] {
+					continue
+				}
+				seen[sc] = true
+				if !walk(sc, 0) {
+					return false
+				}
+			}
+			return true
+		}
+		return walk(call.Block(), instrIndex(call)+1)
+	}
+	return false
 }
 
 // c04ValueFalse: v is the constant false, or known false under the facts.
@@ -110,6 +238,44 @@ func (p *Program) c04TeardownLoops(pkgs ...string) []c04TeardownLoop {
 				continue
 			}
 			out = append(out, c04TeardownLoop{Fn: fn, Call: cv, Loop: loop, ErrIdx: 1})
+		}
+	}
+	// Alternatives: a call of the same (bool, error) shape in the same loop whose results are merged
+	// with the results of a teardown call into the same variables (`if remote { done, err = A(x) }
+	// else { done, err = B(x) }`, the shape a dispatch helper takes once it is written out at its
+	// call site) tears the element down on the other branch and is held to the same obligations.
+	known := map[*ssa.Call]bool{}
+	for _, tl := range out {
+		known[tl.Call] = true
+	}
+	for i := 0; i < len(out); i++ {
+		tl := out[i]
+		for _, r := range referrersOf(tl.Call) {
+			ex, ok := r.(*ssa.Extract)
+			if !ok {
+				continue
+			}
+			for _, r2 := range referrersOf(ex) {
+				ph, ok := r2.(*ssa.Phi)
+				if !ok || !tl.Loop.Body[ph.Block()] || ph.Block() == tl.Loop.Head {
+					continue
+				}
+				for _, e := range ph.Edges {
+					alt, idx := asCall(e)
+					if alt == nil || known[alt] || idx != ex.Index || !tl.Loop.Body[alt.Block()] {
+						continue
+					}
+					sig := alt.Common().Signature()
+					if sig.Results().Len() != 2 || sig.Results().At(0).Type().String() != "bool" || sig.Results().At(1).Type().String() != "error" {
+						continue
+					}
+					if l := innermostLoop(tl.Fn, alt.Block()); l == nil || l.Head != tl.Loop.Head {
+						continue
+					}
+					known[alt] = true
+					out = append(out, c04TeardownLoop{Fn: tl.Fn, Call: alt, Loop: tl.Loop, ErrIdx: 1})
+				}
+			}
 		}
 	}
 	return out
@@ -262,12 +428,13 @@ func c04r1(c *Ctx) {
 // inside the iteration are not-done. Returns the problems found.
 func (p *Program) c04CheckStopLoop(fn *ssa.Function, cv *ssa.Call, loop *Loop) (bad []string, tails int) {
 	ts := pfLoopTailsAfter(cv, loop)
+	iter := pfIterRegion(cv, loop.Head)
 	for _, t := range ts {
 		fs := p.FactsOnEdge(t, loop.Head)
-		if p.errOfCall(fs, cv) != yesTri {
+		if p.c04ErrOfCall(fs, cv, iter) != yesTri {
 			bad = append(bad, fmt.Sprintf("back edge from block %d (%s): the call's error is not known to be nil", t.Index, p.blockPos(t)))
 		}
-		if p.c04BoolResult(fs, cv, 0) != yesTri {
+		if p.c04BoolResult(fs, cv, 0, iter) != yesTri {
 			bad = append(bad, fmt.Sprintf("back edge from block %d (%s): the call is not known to have reported done (the next element is torn down while this one is unfinished)", t.Index, p.blockPos(t)))
 		}
 	}
@@ -285,6 +452,7 @@ func (p *Program) c04CheckStopLoop(fn *ssa.Function, cv *ssa.Call, loop *Loop) (
 
 func c04r2(c *Ctx) {
 	p := c.P
+	doneJudged := map[*ssa.BasicBlock]bool{}
 	for _, tl := range p.c04TeardownLoops(pkgObjectSets, pkgObjSetPhases) {
 		fn, cv := tl.Fn, tl.Call
 		o := c.Ob(fn, "teardown-stop:"+calleeName(cv.Common()), cv, "the next phase is torn down only after this one reported done with nil error; in-loop returns are not-done")
@@ -297,6 +465,10 @@ func c04r2(c *Ctx) {
 			o.OK(fmt.Sprintf("%d back edge(s) guarded", tails))
 		}
 
+		if doneJudged[tl.Loop.Head] {
+			continue // an alternative teardown call of a loop whose done-returns were judged already
+		}
+		doneJudged[tl.Loop.Head] = true
 		o2 := c.Ob(fn, "teardown-done-returns", nil, "done is returned only after the loop is exhausted or under the orphan-finalizer guard")
 		region := pfIterRegion(cv, tl.Loop.Head)
 		var bad2 []string
@@ -475,10 +647,11 @@ func (p *Program) c04CounterShape(v ssa.Value, cv *ssa.Call, loop *Loop, phasePa
 		}
 		inc := e.(*ssa.BinOp)
 		fs := p.FactsAt(inc.Block())
-		if p.c04BoolResult(fs, cv, 0) != yesTri {
+		iter := pfIterRegion(cv, loop.Head)
+		if p.c04BoolResult(fs, cv, 0, iter) != yesTri {
 			return "the counter is incremented at " + p.IPos(inc) + " without the object having reported done"
 		}
-		if p.errOfCall(fs, cv) != yesTri {
+		if p.c04ErrOfCall(fs, cv, iter) != yesTri {
 			return "the counter is incremented at " + p.IPos(inc) + " without the error being known nil"
 		}
 	}
@@ -649,13 +822,17 @@ func c04r5(c *Ctx) {
 			{"read of the phase object returned NotFound", func(rc ReturnCase) bool { return p.c04IsNotFoundOf(rc.Facts, get) }},
 			{"delete of the phase object returned NotFound", func(rc ReturnCase) bool { return p.c04IsNotFoundOf(rc.Facts, del) }},
 			{"phase object is not controlled by the ObjectSet", func(rc ReturnCase) bool {
-				_, ok := p.findFactCall(rc.Facts, false, []string{pkgMetaV1 + ".IsControlledBy"}, func(cc *ssa.CallCommon) bool {
-					if len(cc.Args) != 2 || !p.sameValue(cc.Args[0], obj) {
-						return false
-					}
-					return pfAccessorOnParam(cc.Args[1], "ClientObject") == owner
-				})
-				return ok && get != nil && p.errOfCall(rc.Facts, get) == yesTri
+				if get == nil || p.errOfCall(rc.Facts, get) != yesTri {
+					return false
+				}
+				// any spelling of !metav1.IsControlledBy(obj, owner.ClientObject()); the alternatives of a
+				// written-out `no controller || other UID` arrive over different edges, so per path
+				isObj := func(v ssa.Value) bool { return p.sameValue(v, obj) }
+				isOwner := func(v ssa.Value) bool { return pfAccessorOnParam(v, "ClientObject") == owner }
+				return p.holdsForReturn(rc, func(fs []Fact) bool {
+					_, ok := p.factNotControlledBy(fs, isObj, isOwner)
+					return ok
+				}, 8)
 			}},
 			{"done only together with a non-nil error (callers test the error first, C04.R2)", func(rc ReturnCase) bool {
 				b, ok := rc.Results[0].(*ssa.BinOp)
